@@ -1,7 +1,11 @@
 (** * C11 — sum-copy stores the sum; sum-diff agrees with it.
     sum-copy is [copy_core] with the sum as the source and NaN copying on; sum-diff is [diff_core]
-    without the range check.  The theorems of C08, C09 and C10 therefore apply verbatim. *)
-From WT Require Import Base.Wrap Base.ListX Model.Time Model.Ring Model.Update Model.Handle Model.Cmd Proofs.CmdProofs.
+    without the range check.  End to end ([C11_sumcopy_stores_the_sum]): the sum of any files that
+    histories of updates can produce is a well-formed series list, so after a sum-copy that reports
+    success the destination, opened afresh, holds in every slot of every selected archive's window a
+    value equal to the sum's (NaN where the sum is NaN), and sum-diff over the same window is clean. *)
+From WT Require Import Base.Wrap Base.ListX Model.Time Model.Ring Model.Update Spec.LogSpec Model.Handle Model.Cmd
+  Proofs.TimeProofs Proofs.FetchProofs Proofs.ChainProofs Proofs.HistoryProofs Proofs.CmdProofs Proofs.CopyProofs.
 
 Theorem C11_sumcopy_is_copy_of_sum F files dest o now :
   sum_copy_item F files dest o now =
@@ -32,3 +36,46 @@ Theorem C11_failure_leaves_existing_dest F src dh o until now :
   r_dest (copy_core F src (Some dh) o until now) = Some dh.
 Proof. exact (copy_core_failure_leaves_dest F src dh o until now). Qed.
 Print Assumptions C11_failure_leaves_existing_dest.
+
+(** ** end to end *)
+Theorem C11_sum_lists_are_well_formed F files aid from until now h sl :
+  Forall (fun f => forall h', opened f = Some h' -> represented now h') files ->
+  0 <= from < 2^32 -> 0 <= until < 2^32 -> from <= until ->
+  sum_files F files aid from until now = RdOk h sl -> Forall series_wf sl.
+Proof. exact (sum_files_wf F files aid from until now h sl). Qed.
+Print Assumptions C11_sum_lists_are_well_formed.
+
+Theorem C11_sumcopy_stores_the_sum F fsub files dest o now sh sl d logs :
+  let unt := resolve_until (co_until o) now in
+  let o' := mkCopyOpts (co_from o) (co_until o) (co_archive o) true (co_method o) (co_xff o) (co_layout o) in
+  Forall (fun f => forall h', opened f = Some h' -> represented now h') files ->
+  sum_files F files (co_archive o) (co_from o) unt now = RdOk sh sl ->
+  (match dest with Some _ => opened dest
+   | None => match create (co_method o) (co_xff o) (co_layout o) with Some fresh => Some (sync fresh) | None => None end end) = Some d ->
+  Rel_all (hd_arcs d) logs -> 1 <= hd_method d <= 6 ->
+  wf_layout_full (layout_of (hd_arcs d)) -> clock_ok (layout_of (hd_arcs d)) now ->
+  0 <= co_from o < 2^32 -> 0 <= unt < 2^32 -> co_from o <= unt ->
+  r_status (sum_copy_item F files dest o now) = StOk ->
+  exists dfin dread dl',
+    r_dest (sum_copy_item F files dest o now) = Some dfin /\ reopen dfin = Some dread /\
+    fetch_ts_list (hd_arcs dread) (co_archive o) (co_from o) unt now = TslOk dl' /\
+    all_eq_range_step sl dl' = true /\
+    (* every slot: the destination's value equals the sum's, NaN included *)
+    (forall q, 0 <= q < zlen sl -> forall k, 0 <= k < zlen (s_vals (znth (empty_series 0) sl q)) ->
+       veq (znth NaN (s_vals (znth (empty_series 0) sl q)) k) (znth NaN (s_vals (znth (empty_series 0) dl' q)) k) = true) /\
+    (* and sum-diff is clean *)
+    diff_core fsub false sh sl dread dl' = (StOk, []).
+Proof.
+  intros unt o' Hrep Hsum Hd HRA Hm Hwff Hclock Hfrom Huntil Hfu Hok.
+  pose proof (sum_files_wf F files (co_archive o) (co_from o) unt now sh sl Hrep Hfrom Huntil Hfu Hsum) as Hswf.
+  unfold sum_copy_item in *. fold unt in Hok |- *. rewrite Hsum in Hok |- *. fold o' in Hok |- *.
+  destruct (copy_core_equalizes F sh sl dest o' unt now d logs Hd HRA Hm Hwff Hclock Hfrom Huntil Hfu Hswf Hok)
+    as (dfin & dread & dl' & Hdest & Hre & Hlay & Hdl & Heq & Hemp).
+  exists dfin, dread, dl'. cbn [co_archive co_from co_copy_nan o'] in *.
+  split; [exact Hdest|]. split; [exact Hre|]. split; [exact Hdl|]. split; [exact Heq|]. split.
+  - intros q Hq k Hk. destruct (empty_difference_slotwise true sl dl' Heq Hemp q Hq) as (_ & _ & _ & _ & Hv).
+    apply Hv; [exact Hk|left; reflexivity].
+  - unfold diff_core. rewrite Hlay. cbn [negb andb].
+    destruct (tsl_diff true sl dl') as [a b]. cbn [fst snd] in Hemp. rewrite Hemp. reflexivity.
+Qed.
+Print Assumptions C11_sumcopy_stores_the_sum.
